@@ -60,7 +60,7 @@ Let nest := negb (c_nonest C).
 
 (* what a body never changes: the calls that reached database/sql's Tx API, and (without Cancel)
    the state of the context *)
-Definition s_logd (s : st) : list txcall * bool := (s_txlog s, s_dead s).
+Definition s_logd (s : st) : list txcall * bool * bool := (s_txlog s, s_dead s, s_nonest s).
 
 Definition Inv (base : stack) (ok : bool) (h : option err) (s : st) (t : tbl) (local : stack)
     (l : list obs) (h' : option err) (s' : st) (t' : tbl) (local' : stack) : Prop :=
@@ -140,7 +140,7 @@ Proof.
   - inversion H; subst. unfold Inv. repeat (split; [first [assumption | reflexivity | lia | apply new_names_refl | apply flags_le_refl | (unfold s_logd; cbn; congruence)]|]).
     exists []. split; [reflexivity|]. split; [reflexivity|]. fin.
   - rewrite Htx in H. destruct (fault (length (s_ops s))) eqn:Ef; inversion H; subst; unfold Inv;
-      cbn [set_tx s_tx s_gen s_db s_txlog s_ops s_fl s_dead s_logd cls_oe work sps].
+      cbn [set_tx s_tx s_gen s_db s_txlog s_ops s_fl s_dead s_nonest s_logd cls_oe work sps].
     + repeat (split; [first [assumption | reflexivity | lia | apply new_names_refl | apply flags_le_refl | (unfold s_logd; cbn; congruence)]|]).
       exists [(KStmt, true)]. split; [reflexivity|]. split; [reflexivity|]. fin.
     + repeat (split; [first [assumption | reflexivity | lia | apply new_names_refl | apply flags_le_refl | (unfold s_logd; cbn; congruence)]|]).
@@ -157,7 +157,7 @@ Proof.
   - inversion H; subst. unfold Inv. repeat (split; [first [assumption | reflexivity | lia | apply new_names_refl | apply flags_le_refl | (unfold s_logd; cbn; congruence)]|]).
     exists []. split; [reflexivity|]. split; [reflexivity|]. fin.
   - rewrite Htx in H. destruct (fault (length (s_ops s))) eqn:Ef; inversion H; subst; unfold Inv;
-      cbn [set_tx s_tx s_gen s_db s_txlog s_ops s_fl s_dead s_logd cls_oe work sps].
+      cbn [set_tx s_tx s_gen s_db s_txlog s_ops s_fl s_dead s_nonest s_logd cls_oe work sps].
     + repeat (split; [first [assumption | reflexivity | lia | apply new_names_refl | apply flags_le_refl | (unfold s_logd; cbn; congruence)]|]).
       exists [(KStmt, true)]. split; [reflexivity|]. split; [reflexivity|]. fin.
     + repeat (split; [first [assumption | reflexivity | lia | apply new_names_refl | apply flags_le_refl | (unfold s_logd; cbn; congruence)]|]).
@@ -172,7 +172,7 @@ Lemma h_sp_cases : forall save nm h s h1 s1 tx,
   (exists e0, h = Some e0 /\ c_report C = true /\ h1 = Some (mkErr (e_code e0) true) /\ s1 = s)
   \/ (h = None /\
       let s' := mkSt (s_db s) (s_tx s) ((if save then KSave else KRbTo, fault (length (s_ops s))) :: s_ops s)
-                     (s_gen s) (s_txlog s) (s_fl s) (s_dead s) in
+                     (s_gen s) (s_txlog s) (s_fl s) (s_dead s) (s_nonest s) in
       (* the injected fault hit it *)
       (fault (length (s_ops s)) = true /\ c_report C = true /\ h1 = Some fault_err /\ s1 = s')
       (* executed *)
@@ -215,11 +215,11 @@ Proof.
     unfold Inv. repeat (split; [first [assumption | reflexivity | lia | apply new_names_refl | apply flags_le_refl | (unfold s_logd; cbn; congruence)]|]).
     exists []. split; [reflexivity|]. split; [reflexivity|]. fin.
   - destruct K as [Ef [Er [E1 Es]]]. right. exists fault_err. split; [exact E1|]. subst.
-    unfold Inv; cbn [s_tx s_gen s_db s_txlog s_ops s_fl s_dead s_logd].
+    unfold Inv; cbn [s_tx s_gen s_db s_txlog s_ops s_fl s_dead s_nonest s_logd].
     repeat (split; [first [assumption | reflexivity | lia | apply new_names_refl | apply flags_le_refl | (unfold s_logd; cbn; congruence)]|]).
     exists [(KSave, fault (length (s_ops s)))]. rewrite Ef. split; [reflexivity|]. split; [reflexivity|]. fin.
   - destruct K as [Ef [_ [E1 Es]]]. left. split; [exact E1|]. subst.
-    unfold Inv; cbn [set_tx s_tx s_gen s_db s_txlog s_ops s_fl s_dead s_logd ref_save work sps].
+    unfold Inv; cbn [set_tx s_tx s_gen s_db s_txlog s_ops s_fl s_dead s_nonest s_logd ref_save work sps].
     split; [reflexivity|]. split; [reflexivity|].
     split. { intros k t0 [Hin|Hin]; [discriminate | eapply Hg; exact Hin]. }
     split; [lia|].
@@ -246,14 +246,14 @@ Proof.
     unfold Inv. repeat (split; [first [assumption | reflexivity | lia | apply new_names_refl | apply flags_le_refl | (unfold s_logd; cbn; congruence)]|]).
     exists []. split; [reflexivity|]. split; [reflexivity|]. fin.
   - destruct K as [Ef [Er [E1 Es]]]. right. exists fault_err. split; [exact E1|]. subst h h1 s1.
-    unfold Inv; cbn [s_tx s_gen s_db s_txlog s_ops s_fl s_dead s_logd].
+    unfold Inv; cbn [s_tx s_gen s_db s_txlog s_ops s_fl s_dead s_nonest s_logd].
     repeat (split; [first [assumption | reflexivity | lia | apply new_names_refl | apply flags_le_refl | (unfold s_logd; cbn; congruence)]|]).
     exists [(KRbTo, fault (length (s_ops s)))]. rewrite Ef. split; [reflexivity|]. split; [reflexivity|]. fin.
   - destruct K as [_ [K _]]; discriminate.
   - destruct K as [Ef [_ [tx' [Erb [E1 Es]]]]]. left. split; [exact E1|].
     unfold ref_rbto in Erb; cbn [sps] in Erb. rewrite Hc in Erb. inversion Erb; subst tx'.
     exists snap, local2. split; [|exact HS2]. subst h h1 s1.
-    unfold Inv; cbn [set_tx s_tx s_gen s_db s_txlog s_ops s_fl s_dead s_logd].
+    unfold Inv; cbn [set_tx s_tx s_gen s_db s_txlog s_ops s_fl s_dead s_nonest s_logd].
     split; [reflexivity|].
     split. { cbn [spec_list fold_left spec_obs fst snd].
              pose proof (cut_fu n (local ++ base)) as Hcf. rewrite Hc in Hcf. rewrite Hcf. reflexivity. }
